@@ -252,9 +252,6 @@ func init() {
 	}
 	jobTable["C13"] = jobSet{
 		quick: []Job{
-			{Scenario: "kalive/lat=0s", Budgets: bs(B(1, 0)), Split: 1},
-			{Scenario: "kalive/lat=250ms", Budgets: bs(B(1, 0)), Split: 1},
-			{Scenario: "kalive/lat=499ms", Budgets: bs(B(1, 0)), Split: 1},
 			{Scenario: "kadead/N=2", Budgets: bs(B(0, 1)), Split: 1},
 			{Scenario: "kadead/N=2/kaside=c/k=1", Budgets: bs(B(0, 1)), Split: 1},
 			{Scenario: "kadead/N=2/kaside=s/k=1", Budgets: bs(B(0, 1)), Split: 1},
@@ -267,6 +264,11 @@ func init() {
 			// pace below the ping interval: the window fills only slowly
 			// once the peer is gone
 			{Scenario: "kadead/N=20/ka=2s,1s/k=25/pace=1500ms/kaside=c", Budgets: bs(B(0, 1)), Split: 1},
+			// (the long idle runs last: they are the ones a loaded machine
+			// cuts short)
+			{Scenario: "kalive/lat=250ms", Budgets: bs(B(1, 0)), Split: 1},
+			{Scenario: "kalive/lat=499ms", Budgets: bs(B(1, 0)), Split: 1},
+			{Scenario: "kalive/lat=0s", Budgets: bs(B(1, 0)), Split: 1},
 		},
 		thorough: []Job{
 			{Scenario: "kadead/N=1/ka=2s,1s/k=2", Budgets: bs(B(1, 1)), Filter: "keepalive", Split: 2},
